@@ -356,7 +356,23 @@ impl<'a> Exec<'a> {
             "uncompress_subject" => res(reg(regs, a(0))?.uncompress_subject()),
             "encrypt_subject" => {
                 let k = &self.keys.sym(a(1).as_str().unwrap());
-                res(reg(regs, a(0))?.encrypt_subject(k))
+                let e = reg(regs, a(0))?;
+                match var % 3 {
+                    0 => res(e.encrypt_subject(k)),
+                    1 => res(e.encrypt_subject_opt(k, None)),
+                    _ => {
+                        // a caller-supplied nonce: the result is a function of (envelope, key, nonce)
+                        let nonce = bc_components::Nonce::new();
+                        let r1 = e.encrypt_subject_opt(k, Some(nonce.clone()));
+                        let r2 = e.encrypt_subject_opt(k, Some(nonce));
+                        if let (Ok(x), Ok(y)) = (&r1, &r2) {
+                            if x.tagged_cbor().to_cbor_data() != y.tagged_cbor().to_cbor_data() {
+                                return Err("#variant:encrypt_subject_opt# the same nonce gives two different encryptions".into());
+                            }
+                        }
+                        res(r1)
+                    }
+                }
             }
             "decrypt_subject" => {
                 let k = &self.keys.sym(a(1).as_str().unwrap());
@@ -488,11 +504,29 @@ impl<'a> Exec<'a> {
             }
 
             // ---- salt ----
-            "add_salt" => Outcome::Env(reg(regs, a(0))?.add_salt()),
-            "add_salt_with_len" => res(reg(regs, a(0))?.add_salt_with_len(a(1).as_u64().unwrap() as usize)),
+            "add_salt" => {
+                let e = reg(regs, a(0))?;
+                match var % 3 {
+                    0 => Outcome::Env(e.add_salt()),
+                    1 => Outcome::Env(e.add_salt_using(&mut bc_rand::SecureRandomNumberGenerator)),
+                    _ => {
+                        // with a supplied generator the result is a function of the generator's state
+                        let x = e.add_salt_using(&mut bc_rand::make_fake_random_number_generator());
+                        let y = e.add_salt_using(&mut bc_rand::make_fake_random_number_generator());
+                        if !x.is_identical_to(&y) {
+                            return Err("#variant:add_salt_using# equal generators give different salts".into());
+                        }
+                        Outcome::Env(e.add_salt_using(&mut bc_rand::SecureRandomNumberGenerator))
+                    }
+                }
+            }
+            "add_salt_with_len" => {
+                let n = a(1).as_u64().unwrap() as usize;
+                if var % 2 == 0 { res(reg(regs, a(0))?.add_salt_with_len(n)) } else { res(reg(regs, a(0))?.add_salt_with_len_using(n, &mut bc_rand::SecureRandomNumberGenerator)) }
+            }
             "add_salt_in_range" => {
                 let (lo, hi) = (a(1).as_u64().unwrap() as usize, a(2).as_u64().unwrap() as usize);
-                res(reg(regs, a(0))?.add_salt_in_range(lo..=hi))
+                if var % 2 == 0 { res(reg(regs, a(0))?.add_salt_in_range(lo..=hi)) } else { res(reg(regs, a(0))?.add_salt_in_range_using(&(lo..=hi), &mut bc_rand::SecureRandomNumberGenerator)) }
             }
             "add_assertion_salted" => {
                 let e = reg(regs, a(0))?;
@@ -618,7 +652,11 @@ impl<'a> Exec<'a> {
                 let e = reg(regs, a(0))?;
                 let rk = self.keys.recipient(a(1).as_str().unwrap_or(""));
                 let k = &self.keys.sym(a(2).as_str().unwrap_or(""));
-                Outcome::Env(e.add_recipient(&rk.public, k))
+                match var % 3 {
+                    0 => Outcome::Env(e.add_recipient(&rk.public, k)),
+                    1 => Outcome::Env(e.add_recipient_opt(&rk.public, k, None)),
+                    _ => Outcome::Env(e.add_recipient_opt(&rk.public, k, Some(&bc_components::Nonce::new()))),
+                }
             }
             "share_with" => {
                 // an existing recipient opens the content key and shares it with a further recipient
@@ -671,7 +709,31 @@ impl<'a> Exec<'a> {
                     groups.push(SSKRGroupSpec::new(g[0].as_u64().unwrap() as usize, g[1].as_u64().unwrap() as usize).map_err(|e| format!("policy refused by the dependency: {}", e))?);
                 }
                 let spec = SSKRSpec::new(pol[0].as_u64().unwrap() as usize, groups).map_err(|e| format!("policy refused by the dependency: {}", e))?;
-                let mut shares: Vec<Vec<Envelope>> = e.sskr_split(&spec, k).map_err(|e| e.to_string())?;
+                // the three entry points: grouped, flattened (regrouped here by the policy's group sizes), with a supplied generator
+                let sizes: Vec<usize> = pol[1].as_array().ok_or("policy")?.iter().map(|g| g[1].as_u64().unwrap() as usize).collect();
+                let split_once = |v: u64| -> Result<Vec<Vec<Envelope>>, String> {
+                    match v % 3 {
+                        0 => e.sskr_split(&spec, k).map_err(|e| e.to_string()),
+                        1 => {
+                            let flat = e.sskr_split_flattened(&spec, k).map_err(|e| e.to_string())?;
+                            if flat.len() != sizes.iter().sum::<usize>() {
+                                return Err(format!("#variant:sskr_split_flattened# {} shares for a policy with {} members", flat.len(), sizes.iter().sum::<usize>()));
+                            }
+                            let mut it = flat.into_iter();
+                            Ok(sizes.iter().map(|n| it.by_ref().take(*n).collect()).collect())
+                        }
+                        _ => {
+                            let x = e.sskr_split_using(&spec, k, &mut bc_rand::make_fake_random_number_generator()).map_err(|e| e.to_string())?;
+                            let y = e.sskr_split_using(&spec, k, &mut bc_rand::make_fake_random_number_generator()).map_err(|e| e.to_string())?;
+                            let same = x.len() == y.len() && x.iter().zip(y.iter()).all(|(g, h)| g.len() == h.len() && g.iter().zip(h.iter()).all(|(p, q)| p.is_identical_to(q) && p.tagged_cbor().to_cbor_data() == q.tagged_cbor().to_cbor_data()));
+                            if !same {
+                                return Err("#variant:sskr_split_using# equal generators give different shares".into());
+                            }
+                            e.sskr_split_using(&spec, k, &mut bc_rand::SecureRandomNumberGenerator).map_err(|e| e.to_string())
+                        }
+                    }
+                };
+                let mut shares: Vec<Vec<Envelope>> = split_once(var)?;
                 if op == "sskr_split_pick" {
                     // The specification assumes that two splits get different identifiers (a 16-bit random
                     // number in SSKR; join groups shares by it).  Redo a split whose identifier happens to be
@@ -685,7 +747,7 @@ impl<'a> Exec<'a> {
                         if id.is_none() || !self.ctx.splits.values().any(|other| ident(other) == id) {
                             break;
                         }
-                        shares = e.sskr_split(&spec, k).map_err(|e| e.to_string())?;
+                        shares = split_once(var)?;
                     }
                     let (g, m) = (a(3).as_u64().unwrap() as usize, a(4).as_u64().unwrap() as usize);
                     self.ctx.splits.insert(a(5).to_string(), shares.clone());
@@ -766,7 +828,7 @@ impl<'a> Exec<'a> {
                         c.add(p.clone(), v, cf.as_deref());
                     }
                     if c.is_empty() {
-                        return Err("container empty after add".into());
+                        return Err("#variant:attachments_container# container empty after add".into());
                     }
                     Outcome::Env(c.add_to_envelope(e.clone()))
                 } else {
@@ -776,7 +838,7 @@ impl<'a> Exec<'a> {
                         h.add_attachment(p.clone(), v, cf.as_deref());
                     }
                     if !h.has_attachments() {
-                        return Err("holder has no attachments after add".into());
+                        return Err("#variant:attachments_container# holder has no attachments after add".into());
                     }
                     Outcome::Env(h.attachments().add_to_envelope(e.clone()))
                 }
